@@ -513,10 +513,11 @@ func (w *sxWorld) apply(toks []string) (obs string) {
 			head = "pending -"
 		}
 		w.pend = append(w.pend, a)
-		if kind == "notif" && (ref == "-" || w.stateless) {
-			// The session is closed as soon as this POST returns (failed-initialize cleanup, or the
-			// temporary session of a stateless endpoint) while the notification is still on its way to
-			// the handler: whether the handler runs is a race in the code under test. Not observed.
+		if kind == "notif" && ref == "-" && !w.stateless {
+			// The session is closed as soon as this POST returns (failed-initialize cleanup) while the
+			// notification is still on its way to the handler: whether the handler runs is a race in the
+			// code under test. Not observed.  (The temporary session of a stateless endpoint handles what
+			// it was given before the POST is acknowledged: observed.)
 			w.mu.Lock()
 			w.log = nil
 			w.mu.Unlock()
